@@ -443,13 +443,24 @@ def ephem_source():
 
 
 def extract(ctx):
-    body = window_source() + "\n" + default_order_source()
-    ch = py2lean.instantiate(core.LEAN, "InterpWin", body, "beyond/utils/interp.py (Interp._lagrange window) and beyond/orbits/ephem.py (DEFAULT_ORDER)")
-    ch += py2lean.instantiate(core.LEAN, "InterpLag", formula_source(),
-                              "beyond/utils/interp.py (Interp._lagrange guard and formula, Interp._linear, Interp.__call__ range test)", imports=("Model.NpArr",))
-    if core.write_if_changed(os.path.join(core.LEAN, "BeyondVerif", "Generated", "EphemSrc.lean"), ephem_source()):
-        ch.append("Generated/EphemSrc.lean")
+    """every generated file is rewritten independently of the others (a part of the source the translators refuse must not
+    leave the other files stale); the first refusal is raised at the end"""
+    ch, errors = [], []
+
+    def part(fn):
+        try:
+            ch.extend(fn() or [])
+        except Exception as e:  # noqa
+            errors.append(e)
+    part(lambda: py2lean.instantiate(core.LEAN, "InterpWin", window_source() + "\n" + default_order_source(),
+                                     "beyond/utils/interp.py (Interp._lagrange window) and beyond/orbits/ephem.py (DEFAULT_ORDER)"))
+    part(lambda: py2lean.instantiate(core.LEAN, "InterpLag", formula_source(),
+                                     "beyond/utils/interp.py (Interp._lagrange guard and formula, Interp._linear, Interp.__call__ range test)", imports=("Model.NpArr",)))
+    part(lambda: ["Generated/EphemSrc.lean"] if core.write_if_changed(os.path.join(core.LEAN, "BeyondVerif", "Generated", "EphemSrc.lean"), ephem_source()) else [])
     ch += instantiate.main()
+    if errors:
+        ctx.say(f"[{ID}] extract: regenerated {ch}; refused: {[repr(e)[:200] for e in errors]}")
+        raise errors[0]
     return ch
 
 
@@ -782,6 +793,10 @@ def eph_case(out, rng, add):
 
     def op_interp(t, via):
         dq = d0 + timedelta(seconds=t)
+        sc = rng.choice(["UTC", "UTC", "TAI", "TT", "GPS"])      # the same instant expressed in another time scale
+        if sc != "UTC":
+            dq = dq.change_scale(sc)
+        out.tally("ephem-query-scale=" + sc)
         if via == "T":          # iter(dates=…) is propagate at every date
             kind, r = error_kind(lambda: list(eph.iter(dates=[dq])))
             r = r[0] if kind == "ok" else r
